@@ -339,6 +339,9 @@ def main():
     if tier == 'thorough' and not args.only:
         # thorough: every oracle of the property also runs on the current tree (supplementary, bounded; keeps the oracles honest)
         oracle_units = sorted(set(oracle_units) | set(u for u in units if registry.UNITS[u].get('oracle')))
+    elif not args.only:
+        # quick: oracles registered as bounded stand-ins for functions outside the verifier's reach (PROPS[..]['quick_oracles'])
+        oracle_units = sorted(set(oracle_units) | set(u for u in P.get('quick_oracles', []) if u in units and registry.UNITS[u].get('oracle')))
     for u in oracle_units:
         orc = registry.UNITS[u].get('oracle')
         if not orc:
